@@ -25,7 +25,7 @@ import registry  # noqa: E402
 
 REPO = os.environ.get('VERIF_REPO', '/repo')
 BUILD = os.environ.get('VERIF_BUILD') or os.path.join(VERIF, 'build')  # VERIF_BUILD: scratch build directory for runs against a scratch copy of the repository (selftest, seeded changes)
-EXT = os.path.join(BUILD, 'ext')
+EXT = os.path.join(VERIF, 'build', 'ext')  # shared by every build directory (built once by setup; scratch build dirs reuse it)
 TOOLCHAIN = '1.98.1-x86_64-unknown-linux-gnu'
 RLIMIT = os.environ.get('VERIF_RLIMIT', '30')
 THEOREM_CANARY_RLIMIT = '10'  # spec-level theorems: `ensures false` with the same hypotheses and proof text must not verify
@@ -477,6 +477,7 @@ def verdict(prop, tier, seed, pdef, results, extra, wall):
     if os.environ.get('VERIF_DEV'):
         for ur, e in violations:
             print('--- %s\n%s' % (e['obligation'], e['text']))
+    known_groups = set()
     if violations:
         new = []
         for ur, e in violations:
@@ -484,6 +485,7 @@ def verdict(prop, tier, seed, pdef, results, extra, wall):
             if k:
                 lines.append('KNOWN-FINDING: property=%s %s (%s)' % (prop, e['obligation'], k[0]['what']))
                 ev['coverage'].setdefault('known_findings', []).append(dict(obligation=e['obligation'], what=k[0]['what'], verifier_output=e.get('text', '')[:2000]))
+                known_groups.add('/'.join(e['obligation'].split('/')[:2]))
             else:
                 new.append((ur, e))
         if new:
@@ -518,12 +520,19 @@ def verdict(prop, tier, seed, pdef, results, extra, wall):
             rc = 2
             for u in undecided:
                 lines.append('UNDECIDED property=%s %s' % (prop, u))
+    if known_groups:
+        # a recorded finding is carried by a property-faithful obligation that FAILS on every run (that is how the finding stays visible);
+        # it is not part of the proof claim: counted apart, so that obligations == discharged states exactly what is proved
+        ev['coverage']['finding_obligations_failing_as_recorded'] = len(known_groups)
+        ev['coverage']['obligations'] = obligations - len(known_groups)
+        ev['coverage']['obligations_note'] = ('%d obligation group(s) restate the property without the hypothesis a known finding violates; they fail on every run by design, are reported as KNOWN-FINDING and are not counted in obligations/discharged'
+                                              % len(known_groups))
     ev['coverage']['undecided'] = undecided
     json.dump(ev, open(os.path.join(evdir, prop + '.json'), 'w'), indent=1)
     for ln in lines:
         print(ln)
     if rc == 0:
-        print('OK property=%s obligations=%d discharged=%d units=%s wall=%.1fs' % (prop, obligations, discharged, ','.join(u.name for u in results), wall))
+        print('OK property=%s obligations=%d discharged=%d units=%s wall=%.1fs' % (prop, ev['coverage']['obligations'], discharged, ','.join(u.name for u in results), wall))
     return rc
 
 
